@@ -104,19 +104,57 @@ def run():
             if any(d.split('(')[0].split('.')[-1] in ('cache', 'lru_cache', 'cached_property') for d in decs):
                 cached_mut.append(mname)
     bad = []
+
+    def hands_out_cached(v, tainted):
+        """does evaluating `v` yield (or yield a collection/iterator of) objects handed out by a cached method?"""
+        if isinstance(v, ast.Call) and isinstance(v.func, ast.Attribute) and v.func.attr in cached_mut:
+            return v.func.attr
+        if isinstance(v, ast.Name) and v.id in tainted:
+            return tainted[v.id]
+        if isinstance(v, (ast.GeneratorExp, ast.ListComp, ast.SetComp)):
+            return hands_out_cached(v.elt, tainted)
+        if isinstance(v, (ast.Tuple, ast.List)):
+            for e in v.elts:
+                h = hands_out_cached(e.value if isinstance(e, ast.Starred) else e, tainted)
+                if h:
+                    return h
+        if isinstance(v, ast.IfExp):
+            return hands_out_cached(v.body, tainted) or hands_out_cached(v.orelse, tainted)
+        if isinstance(v, ast.Subscript):
+            return hands_out_cached(v.value, tainted)
+        return None     # any other call (set(x), copy(x), x.union(y), ...) builds a new object
+
+    def names_of(t):
+        if isinstance(t, ast.Name):
+            return [t.id]
+        if isinstance(t, ast.Starred):
+            return names_of(t.value)
+        if isinstance(t, (ast.Tuple, ast.List)):
+            return [x for e in t.elts for x in names_of(e)]
+        return []
     for cname, cls in repo.classes.items():
         for mname, m in cls.methods.items():
-            for n in ast.walk(m):
-                # x = obj.cachedmethod() ... x |= / x.update / x.add
-                if isinstance(n, ast.Assign) and isinstance(n.value, ast.Call) and isinstance(n.value.func, ast.Attribute) \
-                        and n.value.func.attr in cached_mut and len(n.targets) == 1 and isinstance(n.targets[0], ast.Name):
-                    var = n.targets[0].id
-                    for k in ast.walk(m):
-                        if isinstance(k, ast.AugAssign) and isinstance(k.target, ast.Name) and k.target.id == var:
-                            bad.append(f"{cname}.{mname} line {k.lineno}: in-place update of the cached result of {n.value.func.attr}()")
-                        if isinstance(k, ast.Call) and isinstance(k.func, ast.Attribute) and k.func.attr in MUTATORS \
-                                and isinstance(k.func.value, ast.Name) and k.func.value.id == var:
-                            bad.append(f"{cname}.{mname} line {k.lineno}: {var}.{k.func.attr}() on the cached result of {n.value.func.attr}()")
+            tainted = {}
+            for _ in range(3):       # propagate through chains of assignments
+                for n in ast.walk(m):
+                    if isinstance(n, ast.Assign):
+                        h = hands_out_cached(n.value, tainted)
+                        if h:
+                            for t in n.targets:
+                                for x in names_of(t):
+                                    tainted[x] = h
+                    elif isinstance(n, ast.For):
+                        h = hands_out_cached(n.iter, tainted)
+                        if h:
+                            for x in names_of(n.target):
+                                tainted[x] = h
+            for k in ast.walk(m):
+                if isinstance(k, ast.AugAssign) and isinstance(k.target, ast.Name) and k.target.id in tainted:
+                    bad.append(f"{cname}.{mname} line {k.lineno}: in-place update of the cached result of {tainted[k.target.id]}()")
+                if isinstance(k, ast.Call) and isinstance(k.func, ast.Attribute) and k.func.attr in MUTATORS:
+                    h = hands_out_cached(k.func.value, tainted)
+                    if h:
+                        bad.append(f"{cname}.{mname} line {k.lineno}: {ast.unparse(k.func)[:40]}() on the cached result of {h}()")
     r = {'name': f'{PID}/syntactic-frame[cached-results]', 'case': ','.join(sorted(set(cached_mut))), 'kind': 'property',
          'verdict': 'refuted' if bad else 'proved', 'secs': 0.0, 'backend': 'syntactic frame scan',
          'note': '; '.join(bad[:4]) or None}
